@@ -5,7 +5,7 @@
 From Coq Require Import List String Bool Permutation.
 Import ListNotations.
 From DI Require Import Syntax Tokens Bounds Param Subs Superset Substitute Spec RustSem Group Validate IMap Hygiene Dispatch Examples ExamplesGroup.
-From DI.proofs Require Import Basics SupersetSound SupersetExact SubstituteProofs BoundsProofs DispatchProofs GroupProofs ParamProofs RustSemProofs ValidateProofs IMapProofs HygieneProofs.
+From DI.proofs Require Import Basics SupersetSound SupersetExact SubstituteProofs BoundsProofs DispatchProofs GroupProofs ParamProofs ParamAlpha RustSemProofs ValidateProofs IMapProofs HygieneProofs.
 
 (* ===================================================================================== *)
 (* C09 -- header generalisation is exact first-order matching                             *)
@@ -384,3 +384,26 @@ Theorem C03_distinguishable_rows_accepted_partial : forall rows,
   ForallOrdPairs distinguishable rows -> rows_distinct rows = true.
 Proof. exact distinguishable_rows_accepted. Qed.
 Print Assumptions C03_distinguishable_rows_accepted_partial.
+
+(* ===================================================================================== *)
+(* C06 -- independence from parameter names (canonicalisation commutes with any consistent   *)
+(* renaming of a block's lifetimes and type/const parameters); declaration order and bound   *)
+(* placement are decided by the metamorphic check (every rewriting compiled and compared)    *)
+(* ===================================================================================== *)
+
+(* for every block and every injective renaming of lifetimes (rl) and of type/const names
+   (rt): indexing the renamed block yields the renamed state -- same numbers, same order *)
+Theorem C06_numbering_alpha : forall (rl rt : string -> string),
+  (forall a b, rl a = rl b -> a = b) -> (forall a b, rt a = rt b -> a = b) ->
+  forall b, index_block (alpha_block rl rt b) = st_map rl rt (index_block b).
+Proof. exact index_block_alpha. Qed.
+Print Assumptions C06_numbering_alpha.
+
+(* hence the parameter that renames n receives n's canonical name `_ŠČk` *)
+Theorem C06_canonical_names_alpha : forall (rl rt : string -> string),
+  (forall a b, rl a = rl b -> a = b) -> (forall a b, rt a = rt b -> a = b) ->
+  forall b k n,
+  new_name (indexed (index_block (alpha_block rl rt b))) k (rk rl rt k n) =
+  new_name (indexed (index_block b)) k n.
+Proof. exact canonical_names_alpha. Qed.
+Print Assumptions C06_canonical_names_alpha.
